@@ -104,7 +104,7 @@ PROPS = {
         ],
         not_decided=[
             'termination of the mutual recursion of the grammar (exec_allows_no_decreases_clause is declared on recursive functions; counted in assumption_scan)',
-            'marker / DropBomb discipline, event::process, TopEntryPoint::parse balance assertions, Builder, rowan tree construction, validation.rs (e.g. Literal::token().unwrap())',
+            'marker / DropBomb discipline, event::process, TopEntryPoint::parse balance assertions, Builder, rowan tree construction, validation.rs (e.g. Literal::token().unwrap(); its nested `unquote` has a BOUNDED stand-in in the thorough tier only: Kani on the extracted text, every text of <= 3 ASCII bytes — labelled bounded, never counted as proved)',
             'Parser::nth step-limit assertion (unreachable once every loop and recursion makes progress; not proved)',
             'native stack depth',
         ],
